@@ -21,4 +21,6 @@ def run(rep, fb, tier):
     _pr2.rule_py_call_signature(rep)
     from ..rules import pyrules as _pr3
     _pr3.rule_py_highlevel_returns(rep)
+    from ..rules import pyrules as _pr4
+    _pr4.rule_py_defassign(rep)
     rep.units = fb.units + ["src/awkward/operations/convert.py, highlevel.py, _util.py, partition.py (ast)"]
